@@ -77,8 +77,8 @@ for m,enums in bymod.items():
         }}
         /// the command's reply set
         open spec fn ctrl_known(c: u8, i: u8) -> bool {{ {' || '.join(known)} }}
-        /// a packet of the reply set that its own packet type decodes is accepted
-        open spec fn parse_defined(b: Seq<u8>) -> bool {{ b.len() >= 2 && ({' || '.join(defined)}) }}
+        /// a packet of the reply set (an APDU has at least its three header bytes) that its own packet type decodes is accepted
+        open spec fn parse_defined(b: Seq<u8>) -> bool {{ b.len() >= 3 && ({' || '.join(defined)}) }}
         //@ fn exp:zvt | impl zvt_builder::ZvtParser for {name} | zvt_parse | mod={m} props=C15,C02
         //@ end
     }}""")
